@@ -245,14 +245,49 @@ func runC06(c *Ctx) error {
 		k := 2 + c.Intn(7)
 		lastH := -1
 		var toks []string
+		// the handler's reference position must be the last accepted voteproof's position, as LastPoint has it
+		var ref isaac.LastPoint
+		refSet, detour := false, false
+		var refp c06lp
 		for j := 0; j < k; j++ {
 			p := dom[c.Intn(len(dom))]
+			if j > 0 && c.Chance(1, 3) { // stay at the height, move the round or the stage: round changes inside one height
+				p = refp
+				switch c.Intn(3) {
+				case 0:
+					p.r++
+					p.acc = false
+				case 1:
+					p.acc = !p.acc
+				default:
+					p.maj = !p.maj
+				}
+				p.sc = false
+			}
 			if p.sc && !p.maj {
 				p.maj = true
 			}
 			toks = append(toks, p.tok())
-			wasNew := h.IsNew(p.voteproof())
-			set := h.Set(p.voteproof())
+			vp := p.voteproof()
+			wasNew := h.IsNew(vp)
+			expectNew := !refSet || isaac.IsNewVoteproof(ref, vp)
+			if wasNew != expectNew {
+				cls := "C06:handler-reference-is-not-the-last-accepted"
+				if detour { // after a suffrage-confirm detour the INIT and ACCEPT slots disagree about the round (known finding)
+					cls = "C06:sc-detour-revisits-position"
+				}
+				c.Violation(cls, fmt.Sprintf("voteproofs %s: LastVoteproofsHandler.IsNew says %v, the position of the last accepted voteproof (%s) says %v", strings.Join(toks, " "), wasNew, refp.tok(), expectNew),
+					map[string]interface{}{"seq": append([]string{}, toks...)})
+			}
+			if expectNew {
+				if refSet && p.h == refp.h && c06less(p, refp) {
+					detour = true
+				}
+				if lp, err := isaac.NewLastPointFromVoteproof(vp); err == nil {
+					ref, refSet, refp = lp, true, p
+				}
+			}
+			set := h.Set(vp)
 			c.Eval(1)
 			if cap := h.Last().Cap(); cap != nil {
 				ch := int(cap.Point().Height())
